@@ -4,6 +4,7 @@ import ast
 from ..model import AnalysisError, dotted, norm_text, names_read
 from ..rules import asserts
 from ..rules import wiring
+from ..rules import stencil
 
 TECHNIQUE = ('abstract interpretation of tf.Assert conditions (scalar-ness, '
              'aggregate polarity, eps direction), parameter-to-assert control '
@@ -73,6 +74,12 @@ def run(prog, res):
   for qual in HELPERS:
     total += asserts.check_asserts(prog, res, prog.function(qual))
   res.extra['assert_sites'] = total
+  # A5: loops over vertex rows / columns cover the whole grid
+  n5 = stencil.check_stencils(prog, res, prog.function(
+      'lattice_lib.assert_constraints'))
+  n5 += stencil.check_stencils(prog, res, prog.function(
+      'kronecker_factored_lattice_lib._assert_monotonicity_constraints'))
+  res.floor('A5', 22)
   # W1: layers forward every kind
   for lq, tq, aliases in LAYERS:
     fn = prog.function(lq)
